@@ -116,13 +116,20 @@ def scen_algebra(env, cfg):
     else:
         o = _container(env, okind, bbits)
         so = env.snap(o) if okind == 'ndarray' else None
+    if cfg.get('count_first'):
+        a.ones(), a.zeros()             # the parent has been counted before it is sliced / concatenated (memoised counters must not leak)
     # a + o
     c = a + o
     env.check('a+o: valid, len(a+o) == len(a)+len(o)', env.And(_valid(env, c, la + lb), len(c) == la + lb))
     env.check('a+o: (a+o)[:len(a)] == a and the rest is o',
               env.And([env.eq(v, x) for v, x in zip(env.items(c.data), list(abits) + list(bbits))]))
+    if cfg.get('count_first'):
+        c.ones()
     pre = c[:la]
     env.check('(a+o)[:len(a)] == a through the public slice and ==', env.And(_valid(env, pre, la), pre == a) if la else True)
+    if la:
+        env.check('ones()/zeros() of a slice count the slice (whatever was counted on the parent before)',
+                  env.And(env.eq(pre.ones(), sum(abits)), env.eq(pre.zeros(), la - sum(abits))))
     # o + a  (reflected form; for a binary_sequence on the left this is again __add__)
     if okind != 'ndarray':
         d = o + a
@@ -299,6 +306,8 @@ def configs(tier):
     for la, lb in lens:
         for other in ('bs', 'list', 'tuple', 'ndarray'):
             out.append((f'algebra-{other}-{la}+{lb}', scen_algebra, dict(la=la, lb=lb, other=other), {}))
+    for la, lb in ((2, 1), (3, 2)):
+        out.append((f'algebra-bs-{la}+{lb}-counted-first', scen_algebra, dict(la=la, lb=lb, other='bs', count_first=True), {}))
     out.append(('algebra-str', scen_algebra, dict(la=2, lb=3, other='str', text='011'), {}))
     out.append(('algebra-str-sep', scen_algebra, dict(la=1, lb=2, other='str', text='10'), {}))
     for kind in ('values', '2d', 'type'):
